@@ -4,19 +4,24 @@ from __future__ import annotations
 import re
 
 from .. import calg, cstmt, jmodel as J
-from ..cskel import Skel
+from ..cskel import Skel, OPEN, CLOSE
 
 EXPLANATION = (
-    "On the C++ of cvode/src/naunet.cpp.j2 specialised per method and the two odeint files (statement parser, no compilation): R1 every status "
-    "returned by a CVode* call in Solve / HandleError is read (CheckFlag, HandleError argument, comparison) before it is overwritten or the "
-    "function returns; R2 in HandleError `return NAUNET_SUCCESS` is reachable only under `cvflag >= 0` with no later assignment to cvflag, every "
-    "other exit returns NAUNET_FAIL; Solve returns HandleError's result and logs the initial state iff it is NAUNET_FAIL; R3 ladder premises: "
-    "recoverable flags -1..-4 keep the reached state and subtract the elapsed time (dt -= t0), the reset flag -6 restores ab_init_ and dt_init "
-    "(captured once, before the level loop), t0 = 0 and ab = ab_tmp_ precede CVodeReInit(cv_mem_, t0, cv_y_), the last sub-step target "
-    "canonicalises to dt, and CVode reports progress into t0; R4 odeint: the observer throws when step_ > mxsteps_, the thrown type is the type "
-    "Solve catches, the handler sets flag = NAUNET_FAIL, Solve returns flag, integrate_adaptive runs over [0, dt] with that observer; R5 every "
-    "caller of Solve inside the templates tests its result (cvode and odeint Python wrappers agree); R6 (premise of R3) cv_y_ has no storage of its own "
-    "and is pointed at the caller's array before CVodeInit, so the state HandleError writes is the state CVodeReInit restarts from.")
+    "On the C++ of cvode/src/naunet.cpp.j2 specialised per method and the two odeint files (statement parser, no compilation; bare calls of void helpers "
+    "defined in the same file are replaced by their bodies, parameters are taken by position from the function header, guard clauses count as guards): "
+    "R1 every status returned by a CVode* call in Solve / HandleError is read (CheckFlag, HandleError argument, comparison) before it is overwritten or the "
+    "function returns; R2 in HandleError every exit that can return NAUNET_SUCCESS is unreachable for a sample of negative flags under the guards that still "
+    "hold there (conditions evaluated, not matched; a test on a flag written since does not count), the function falls through to NAUNET_FAIL; Solve hands "
+    "HandleError the flag, the state, the interval and the time CVode reached, returns its result and logs the initial state iff it is NAUNET_FAIL; "
+    "R3 ladder premises by symbolic execution of the start of a level for each sampled flag: -1..-4 and -6 reach CVodeReInit(cv_mem_, 0, cv_y_), every other "
+    "negative flag returns NAUNET_FAIL; with G = the target of the last sub-step as a function of the state at the re-initialisation (loop variable at its "
+    "last value), a recoverable flag leaves G = G(level start) - (time reached) and the state reached, the reset flag leaves G = G(function entry) and "
+    "ab_init_, G(function entry) is the requested interval, and CVode reports progress into the time-reached parameter; levels are 1..5; "
+    "R4 odeint: the observer throws exactly when counter > budget (truth table), counts unconditionally and before testing, the thrown type is the type "
+    "Solve catches, Solve returns NAUNET_SUCCESS when the try block completes and NAUNET_FAIL through every handler, integrate_adaptive runs over [0, dt] on the "
+    "vector that is copied back, with an observer built per call from mxsteps_; R5 every caller of Solve inside the templates throws exactly when its result is "
+    "NAUNET_FAIL (cvode and odeint Python wrappers agree); R6 (premise of R3) cv_y_ has no storage of its own and is pointed at the caller's array before "
+    "CVodeInit, so the state HandleError writes is the state CVodeReInit restarts from.")
 ASSUMPTIONS = [
     "CVODE's / Boost.Odeint's own behaviour, floating-point exactness of pow(10, log10(dt)) and the scheduling of failures are not decided",
     "DESIGN.md Appendix D gives the invariant whose premises R2/R3 are",
@@ -29,17 +34,59 @@ OD = "naunet/templates/odeint/src/naunet.cpp.j2"
 ODE = "naunet/templates/odeint/src/naunet_ode.cpp.j2"
 
 
-def _body(ctx, rel, cfg, fname):
+def _ctext(sk, s):
+    """C text of a piece of the skeleton: a `{% set %}` emits nothing, a `{{ .. }}` is one opaque token."""
+    s = re.sub(f"{OPEN}(\\d+){CLOSE}", lambda m: " " if sk.marks[int(m.group(1))][0] in ("set", "setblock") else " __HOLE__ ", s)
+    return sk.plain(s)
+
+
+class _Func:
+    """one driver function: parameter names (by position, from its header), statement tree with the bare calls of void
+    helper functions of the same file replaced by their bodies, and the definitions / positions of its locals"""
+
+    def __init__(self, sk, f, body):
+        self.header = f.header
+        self.params = cstmt.params_of(f.header)
+        self.body = body
+        self.fn = cstmt.Fn(body)
+
+
+def _helpers(sk, but):
+    """void functions of the file (free or member), by unqualified name"""
+    cache = sk.__dict__.setdefault("_c19_helpers", {})
+    for f in sk.funcs:
+        short = f.name.split("::")[-1]
+        if f.name in cache or f.name == "?" or not re.search(r"\bvoid\b[\s\w:*&]*\b" + re.escape(short) + r"\s*\($", f.header[:f.header.find("(") + 1].replace("\n", " ")):
+            continue
+        params = cstmt.params_of(f.header)
+        try:
+            cache[f.name] = (short, params, cstmt.parse_body(cstmt.expand_macros(_ctext(sk, f.body), sk.__dict__.get("_c19_macros", {})))) if params is not None else None
+        except cstmt.CStmtError:
+            cache[f.name] = None
+    return {v[0]: (v[1], v[2]) for k, v in cache.items() if v and k != but}
+
+
+def _func(ctx, rel, cfg, fname):
     sk = Skel(J.flatten(ctx.tree, rel, cfg))
     fs = sk.func(fname)
     if not fs:
-        return None, None
-    text = sk.plain(fs[0].body)
+        return None
+    if "_c19_macros" not in sk.__dict__:
+        sk._c19_macros = cstmt.macro_defs(_ctext(sk, sk.clean))
+    text = cstmt.expand_macros(_ctext(sk, fs[0].body), sk._c19_macros)
     try:
-        return cstmt.parse_body(text), text
+        body = cstmt.inline_calls(cstmt.parse_body(text), _helpers(sk, fname))
     except cstmt.CStmtError as ex:
         ctx.unrec("R1", f"{rel.split('/')[-1]}:{fname}", (rel, 0), f"statement parser: {ex}")
-        return None, None
+        return None
+    fn = _Func(sk, fs[0], body)
+    fn.text = text
+    return fn
+
+
+def _body(ctx, rel, cfg, fname):
+    fn = _func(ctx, rel, cfg, fname)
+    return (None, None) if fn is None else (fn.body, fn.text)
 
 
 def check(ctx):
@@ -63,22 +110,36 @@ def _r6(ctx):
             ctx.missing("R6", f"cvode/{mth}:Solve", (CV, 0), "Naunet::Solve not found")
             continue
         body = sk.plain(fs[0].body)
-        alias = [m.start() for m in re.finditer(r"\bN_VSetArrayPointer\s*\(\s*ab\s*,\s*cv_y_\s*\)", body)]
-        init = [m.start() for m in re.finditer(r"\bCVodeInit\s*\(\s*cv_mem_\s*,\s*\w+\s*,\s*\w+\s*,\s*cv_y_\s*\)", body)]
+        ps = cstmt.params_of(fs[0].header)
+        ab = re.escape(ps[0]) if ps else "ab"
+        alias = [m.start() for m in re.finditer(r"\bN_VSetArrayPointer\s*\(\s*" + ab + r"\s*,\s*cv_y_\s*\)|\bNV_DATA_S\s*\(\s*cv_y_\s*\)\s*=\s*" + ab + r"\s*;"
+                                                 r"|\bcv_y_\s*=\s*N_VMake_Serial\s*\([^;]*,\s*" + ab + r"\s*[,)]", body)]
+        init = [m.start() for m in re.finditer(r"\bCVodeInit\s*\(\s*cv_mem_\s*,\s*\w+\s*,\s*[\w.]+\s*,\s*cv_y_\s*\)", body)]
+        copied = re.search(r"N_VGetArrayPointer\w*\s*\(\s*cv_y_\s*\)|NV_DATA_S\s*\(\s*cv_y_\s*\)\s*\[|NV_Ith_S\s*\(\s*cv_y_", body)
         ok = len(alias) == 1 and len(init) == 1 and alias[0] < init[0]
-        ctx.check(ok, "R6", f"cvode/{mth}:Solve:cv_y_ wraps ab", (CV, 0),
-                  "N_VSetArrayPointer(ab, cv_y_) precedes CVodeInit(cv_mem_, Fex, t0, cv_y_): what HandleError writes into ab is the integrator's state" if ok else
-                  "cv_y_ is not pointed at the caller's array before CVodeInit: HandleError resets `ab` (flag -6: back to ab_init_) but CVodeReInit restarts from cv_y_'s own copy -- "
-                  "the interval is integrated from the partially advanced state and Solve reports success",
-                  expected="N_VSetArrayPointer(ab, cv_y_); ... CVodeInit(cv_mem_, Fex, t0, cv_y_)", found=f"{len(alias)} aliasing call(s), {len(init)} CVodeInit on cv_y_")
+        key = f"cvode/{mth}:Solve:cv_y_ wraps ab"
+        if ok:
+            ctx.ok("R6", key, (CV, 0), f"N_VSetArrayPointer({ps[0] if ps else 'ab'}, cv_y_) precedes CVodeInit(cv_mem_, Fex, t0, cv_y_): what HandleError writes into the caller's array is the integrator's state")
+        elif copied or (len(alias) == 1 and len(init) == 1) or len(alias) > 1:
+            ctx.bad("R6", key, (CV, 0),
+                    "cv_y_ is not pointed at the caller's array before CVodeInit: HandleError resets `ab` (flag -6: back to ab_init_) but CVodeReInit restarts from cv_y_'s own copy -- "
+                    "the interval is integrated from the partially advanced state and Solve reports success",
+                    expected="N_VSetArrayPointer(ab, cv_y_); ... CVodeInit(cv_mem_, Fex, t0, cv_y_)", found=f"{len(alias)} aliasing call(s), {len(init)} CVodeInit on cv_y_" + ("; the data of cv_y_ is accessed element-wise" if copied else ""))
+        else:
+            ctx.unrec("R6", key, (CV, 0), f"how cv_y_ gets its data in Solve is not understood ({len(alias)} aliasing call(s), {len(init)} CVodeInit on cv_y_)")
         for fname in ("Naunet::Init", "Naunet::Reset"):
             f2 = sk.func(fname)
             if not f2:
                 continue
             b2 = sk.plain(f2[0].body)
             mk = re.findall(r"cv_y_\s*=\s*(\w+)\s*\(", b2)
-            ctx.check(bool(mk) and set(mk) == {"N_VNewEmpty_Serial"}, "R6", f"cvode/{mth}:{fname.split('::')[1]}:cv_y_ has no storage of its own", (CV, 0),
-                      "cv_y_ is an empty vector (data pointer set per Solve call)", expected="cv_y_ = N_VNewEmpty_Serial(..)", found=str(mk))
+            key = f"cvode/{mth}:{fname.split('::')[1]}:cv_y_ has no storage of its own"
+            if mk and set(mk) <= {"N_VNewEmpty_Serial", "N_VNewEmpty"}:
+                ctx.ok("R6", key, (CV, 0), "cv_y_ is an empty vector (data pointer set per Solve call)")
+            elif set(mk) & {"N_VNew_Serial", "N_VClone", "N_VNew"}:
+                ctx.bad("R6", key, (CV, 0), "cv_y_ is created with storage of its own: the state HandleError writes into the caller's array is not the integrator's", expected="cv_y_ = N_VNewEmpty_Serial(..)", found=str(mk))
+            else:
+                ctx.unrec("R6", key, (CV, 0), f"how cv_y_ is created is not understood: {mk}")
 
 
 def _r1(ctx):
@@ -103,210 +164,522 @@ def _r1(ctx):
     ctx.floor("R1", "driver functions", n, 9)
 
 
-def _strip_casts(s):
-    return re.sub(r"\(\s*(realtype|double|float|int)\s*\)", "", s)
+CONSTS = {"NAUNET_SUCCESS": 0, "NAUNET_FAIL": 1}
+REC, RESET = (-1, -2, -3, -4), (-6,)
+NEG = (-1, -2, -3, -4, -5, -6, -7, -8, -9, -10, -11, -22, -99)      # sample of failure flags: CVODE's own range and beyond
+
+
+def _guards(F, conds, st, keep=()):
+    """the `if` guards statement `st` runs under that still hold when it runs -- a test on a variable that is written between
+    the test and `st` (or anywhere in a loop around `st` that the test is outside of) says nothing any more -- with
+    once-defined locals (`bool ok = flag >= 0;`) replaced by their definitions"""
+    out = []
+    sp = F.pos.get(id(st), 0)
+    loops = [g[3] for g in conds if g[0] in ("for", "while")]
+    for g in conds:
+        if g[0] != "if":
+            out.append(g)
+            continue
+        gp = F.pos.get(id(g[3]), 0)
+        toks = _checkflag(F.expand(g[1], gp, keep=keep))
+        toks = tuple(t for j, t in enumerate(toks) if not (t == "++" and j + 1 < len(toks) and cstmt.IDENT.match(toks[j + 1])
+                                                            and not (j and (cstmt.IDENT.match(toks[j - 1]) or toks[j - 1] in (")", "]")))))
+        names = {t for t in toks if cstmt.IDENT.match(t)}
+        stale = any(gp < i < sp for nm in names for i, op, rhs, decl in F.defs.get(nm, ())) or any(F.pos.get(id(lp), 0) > gp and cstmt.written(lp) & names for lp in loops)
+        if not stale:
+            out.append((g[0], toks, g[2], g[3]))
+    return out
+
+
+def _checkflag(toks):
+    """`CheckFlag(&x, name, 1, file)` (this file's own helper) is NAUNET_FAIL exactly when x < 0"""
+    toks = list(toks)
+    out = []
+    i = 0
+    while i < len(toks):
+        if toks[i] == "CheckFlag" and toks[i + 1:i + 3] == ["(", "&"] and i + 3 < len(toks) and cstmt.IDENT.match(toks[i + 3]):
+            d, j = 0, i + 1
+            while j < len(toks):
+                d += toks[j] == "("
+                d -= toks[j] == ")"
+                if d == 0:
+                    break
+                j += 1
+            args = cstmt._top_split(toks[i + 2:j], (",",))
+            if len(args) == 4 and args[0] == ["&", toks[i + 3]] and args[2] == ["1"]:
+                out += ["(", "(", toks[i + 3], "<", "0", ")", "?", "NAUNET_FAIL", ":", "NAUNET_SUCCESS", ")"]
+                i = j + 1
+                continue
+        out.append(toks[i])
+        i += 1
+    return out
+
+
+def _relevant(F, g, names):
+    """can the guard say anything about `names`?  Only when it mentions one of them or a local computed in this function."""
+    return any(t in names or t in F.defs for t in g[1] if cstmt.IDENT.match(t))
+
+
+def _is_call(st, callee):
+    if st[0] != "expr":
+        return None
+    ac = cstmt.assigned_call(st[1])
+    return ac if ac and ac[1] == callee else None
+
+
+def _r2_handle_error(ctx, label, F, FLAG):
+    rets = [(s, c) for s, c in F.seq if s[0] == "return"]
+    nsucc = 0
+    odd = []
+    for s, c in rets:
+        g = _guards(F, c, s, keep=(FLAG,))
+        ifs = [x for x in g if x[0] == "if"]
+        # is this an exit that can report success at all?
+        v0 = cstmt.value(s[1], {FLAG: 0, **CONSTS})
+        if v0 is None or v0 not in (0, 1):
+            odd.append(cstmt.txt(s[1]))
+            continue
+        if v0 != 0:
+            continue
+        nsucc += 1
+        key = f"{label}:HandleError:success#{nsucc} guarded"
+        bad_for, undecided = [], []
+        for v in NEG:
+            env = {FLAG: v, **CONSTS}
+            if cstmt.value(s[1], env) == 1:
+                continue
+            reach = cstmt.guards_truth(ifs, env)
+            if reach is None:
+                # guards that cannot depend on the flag do not protect the exit
+                rel = [x for x in ifs if cstmt.truth(x[1], env) is not None or _relevant(F, x, {FLAG})]
+                reach = cstmt.guards_truth(rel, env)
+            if reach is True:
+                bad_for.append(v)
+            elif reach is None:
+                undecided.append(v)
+        shown = str([("" if x[2] else "!") + "(" + cstmt.norm(x[1]) + ")" for x in ifs])
+        if bad_for:
+            ctx.bad("R2", key, (CV, 0), f"a `return NAUNET_SUCCESS` is reachable without the test `{FLAG} >= 0` on the last integrator flag (e.g. with {FLAG} = {bad_for[0]})",
+                    expected=f"if ({FLAG} >= 0) {{ .. return NAUNET_SUCCESS; }}", found=shown)
+        elif undecided:
+            ctx.unrec("R2", key, (CV, 0), f"cannot decide whether the guards {shown} exclude a negative {FLAG}")
+        else:
+            ctx.ok("R2", key, (CV, 0), f"success is returned only under `{FLAG} >= 0`")
+            # the tested flag is the returned-on flag: no write to it between the test and the return
+            rp = F.pos[id(s)]
+            est = [x for x in ifs if all(cstmt.truth(x[1], {FLAG: v, **CONSTS}) is (not x[2]) for v in NEG)]
+            starts = [F.pos.get(id(x[3]), 0) for x in (est or ifs)]
+            unchanged = any(not F.written_between({FLAG}, p, rp) for p in starts) if est else not F.written_between({FLAG}, min(starts or [rp]), rp)
+            ctx.check(unchanged, "R2", f"{label}:HandleError:flag unchanged before success#{nsucc}", (CV, 0), "the tested flag is the one returned on",
+                      found=f"{FLAG} is written between its test and the return")
+    if odd:
+        ctx.unrec("R2", f"{label}:HandleError:return values", (CV, 0), f"exit value(s) {odd} are neither NAUNET_SUCCESS nor NAUNET_FAIL nor decided by the flag")
+    else:
+        ctx.ok("R2", f"{label}:HandleError:return values", (CV, 0), "every exit returns NAUNET_SUCCESS or NAUNET_FAIL")
+    if nsucc >= 2:
+        ctx.ok("R2", f"{label}:HandleError:success exits", (CV, 0), "success exits: at entry (nothing to repair) and after a completed level")
+    else:
+        ctx.unrec("R2", f"{label}:HandleError:success exits", (CV, 0), f"expected a success exit at entry and one after a completed level, found {nsucc}")
+    last = F.body[1][-1] if F.body[0] == "block" and F.body[1] else ("?",)
+    ctx.check(last[0] == "return" and cstmt.value(last[1], CONSTS) == 1, "R2", f"{label}:HandleError:falls through to failure", (CV, 0),
+              "when all levels are exhausted the function returns NAUNET_FAIL", found=cstmt.txt(last[1]) if last[0] == "return" else last[0])
+
+
+def _loop_var(loop):
+    """(variable, expression text of its value in the last iteration) of `for (..; v < E; v++)` / `.. while (v <= E) { ..; v++; }`"""
+    cond = loop[2] if loop[0] == "for" else loop[1]
+    incs = cstmt.assignments(loop[3]) if loop[0] == "for" else []
+    if loop[0] == "while":
+        body = loop[2][1] if loop[2][0] == "block" else [loop[2]]
+        for b in body:
+            if b[0] == "expr":
+                incs += [a for a in cstmt.assignments(b[1]) if a[0] in cond]
+    unit = [nm for nm, op, rhs, decl in incs if op == "++" or (op == "+=" and cstmt.norm(rhs) == "1") or (op == "=" and cstmt.norm(rhs) in (f"{nm}+1", f"1+{nm}"))]
+    if len(unit) != 1 or len(incs) != 1:
+        return None
+    v = unit[0]
+    for op, flip in (("<", False), ("<=", False), (">", True), (">=", True), ("!=", False)):
+        parts = cstmt._top_split(cond, (op,))
+        if len(parts) == 2:
+            lhs, rhs = (parts[1], parts[0]) if flip else (parts[0], parts[1])
+            if lhs == [v] and v not in rhs:
+                bound = " ".join(rhs)
+                return v, (f"({bound}) - 1" if op in ("<", ">", "!=") else f"({bound})")
+    return None
+
+
+def _r3_ladder(ctx, label, F, FLAG, AB, DT, T0):
+    body = F.body
+    where = (CV, 0)
+
+    def reinit(st):
+        return _is_call(st, "CVodeReInit")
+    loops = [s for s, c in F.seq if s[0] in ("for", "while", "dowhile") and any(reinit(x) for x, _ in cstmt.walk(s))]
+    if not loops:
+        ctx.unrec("R3", f"{label}:level loop", where, "no loop around a CVodeReInit call: the recovery ladder is not in a shape this rule understands")
+        return
+    loop = loops[0]
+    ctx.ok("R3", f"{label}:level loop", where, "one recovery ladder: the loop that re-initialises the integrator")
+    # ---- the levels
+    levels = None
+    lv = _loop_var(loop) if loop[0] == "for" else None
+    if lv:
+        init = [a for a in cstmt.assignments(loop[1]) if a[0] == lv[0] and a[1] == "="]
+        start = cstmt.value(init[0][2], {}) if init else None
+        if isinstance(start, int):
+            levels = []
+            x = start
+            while len(levels) < 50 and cstmt.truth(loop[2], {lv[0]: x}):
+                levels.append(x)
+                x += 1
+    if levels is None:
+        ctx.unrec("R3", f"{label}:five levels", where, "cannot enumerate the levels of `" + ("; ".join(cstmt.txt(x) for x in loop[1:4]) if loop[0] == "for" else "while (" + cstmt.txt(loop[1]) + ")") + "`")
+        return
+    LV = lv[0]
+    if levels == [1, 2, 3, 4, 5]:
+        ctx.ok("R3", f"{label}:five levels", where, "levels 1..5")
+    else:
+        ctx.unrec("R3", f"{label}:five levels", where, f"the levels are numbered {levels}, not 1..5: `{cstmt.txt(loop[1])}; {cstmt.txt(loop[2])}; {cstmt.txt(loop[3])}`")
+        if not levels:
+            return
+    lbody = loop[4]
+    lstm = lbody[1] if lbody[0] == "block" else [lbody]
+    at = [i for i, x in enumerate(lstm) if reinit(x)]
+    if len(at) != 1:
+        ctx.unrec("R3", f"{label}:re-initialisation", where, "CVodeReInit is not a statement of the level body itself")
+        return
+    rst = lstm[at[0]]
+    rcall = reinit(rst)
+    # ---- G: the target of the last sub-step, as a function of the state at the re-initialisation
+    try:
+        def substeps(st):
+            return st[0] in ("for", "while") and any(_is_call(x, "CVode") for x, _ in cstmt.walk(st))
+        post = cstmt.Sym(stop=substeps)
+        r = post.run(("block", lstm[at[0] + 1:]))
+        if not r or r[0] != "stop":
+            raise cstmt.Unknown("no sub-step loop around a CVode call after the re-initialisation")
+        sub = r[1]
+        sv = _loop_var(sub)
+        if not sv:
+            raise cstmt.Unknown(f"cannot tell the last iteration of the sub-step loop `{cstmt.txt(sub[2] if sub[0] == 'for' else sub[1])}`")
+        post.s[sv[0]] = post.subst(cstmt.tokenize(sv[1]))
+        post.stop = lambda st: bool(_is_call(st, "CVode"))
+        r = post.run(sub[4] if sub[0] == "for" else sub[2])
+        if not r or r[0] != "stop":
+            raise cstmt.Unknown("the CVode call of the sub-step loop is not reached unconditionally")
+        cv = _is_call(r[1], "CVode")
+        args = [cstmt.norm(a) for a in cv[2]]
+        okc = cv[0] == FLAG and len(args) == 5 and args[0] == "cv_mem_" and args[2] == "cv_y_" and args[3] == "&" + T0 and args[4] == "CV_NORMAL"
+        ctx.check(okc, "R3", f"{label}:CVode call", where, f"{FLAG} = CVode(cv_mem_, tout, cv_y_, &{T0}, CV_NORMAL): progress is reported into {T0}", found=f"{cv[0]} = CVode({', '.join(args)})")
+        G = post.subst(cstmt.strip_casts(cv[2][1])) if len(cv[2]) > 1 else "?"
+        Gt = cstmt.tokenize(G)
+    except cstmt.Unknown as ex:
+        ctx.unrec("R3", f"{label}:last sub-step reaches dt", where, str(ex))
+        return
+    # ---- the state each flag leaves at the re-initialisation
+    W = cstmt.written(loop)
+    outcome = {}
+    try:
+        for v in NEG:
+            pre = cstmt.Sym({DT: DT + "__entry", T0: T0 + "__entry"}, {AB: AB + "__entry"}, {FLAG: v}, stop=lambda st: st is loop)
+            r = pre.run(body)
+            if r and r[0] == "return" and cstmt.value(r[1], CONSTS) == 1:
+                outcome[v] = ("fail", None)
+                continue
+            if not r or r[0] != "stop":
+                raise cstmt.Unknown(f"with {FLAG} = {v} the ladder is not reached ({r})")
+            for lvl in (levels[0], levels[-1]) if levels else (1,):
+                # at the head of a level: what the loop writes has an unknown (named) value, everything else its value from before the loop
+                arrs = {k: k + "__head" for k in W if k not in pre.s}
+                arrs.update({k: (k + "__head" if k in W else e) for k, e in pre.a.items()})
+                head = cstmt.Sym({k: (k + "__head" if k in W else e) for k, e in pre.s.items()}, arrs, {FLAG: v, LV: lvl}, stop=lambda st: st is rst)
+                hs = head.clone()
+                r = head.run(lbody)
+                if r and r[0] == "return":
+                    val = cstmt.value(r[1], CONSTS)
+                    if val not in (0, 1):
+                        raise cstmt.Unknown(f"with {FLAG} = {v} the level leaves with `{cstmt.txt(r[1])}`")
+                    res = ("fail" if val == 1 else "success", None)
+                elif r and r[0] == "stop":
+                    res = ("reach", (pre, hs, head))
+                else:
+                    raise cstmt.Unknown(f"with {FLAG} = {v} the level body ends in {r} before the re-initialisation")
+                if v in outcome and outcome[v][0] != res[0]:
+                    raise cstmt.Unknown(f"the treatment of {FLAG} = {v} depends on the level")
+                outcome[v] = res
+    except cstmt.Unknown as ex:
+        ctx.unrec("R3", f"{label}:ladder", where, f"the start of a level is not understood: {ex}")
+        return
+    reach = sorted(v for v, o in outcome.items() if o[0] == "reach")
+    lost = [v for v in REC if outcome[v][0] != "reach"]
+    ctx.check(not lost, "R3", f"{label}:recoverable flags", where, "flags -1..-4 are the recoverable set", expected="-1..-4 continue with the next level",
+              found=f"{lost} leave the ladder; flags that continue: {reach}")
+    ctx.check(outcome[-6][0] == "reach", "R3", f"{label}:reset flag", where, "flag -6 is the reset flag", expected="-6 restarts from the initial state", found=f"flags that continue: {reach}")
+    others = [v for v in NEG if v not in REC + RESET and outcome[v][0] != "fail"]
+    ctx.check(not others, "R3", f"{label}:other flags fail", where, "any other negative flag leaves with NAUNET_FAIL", expected="NAUNET_FAIL for every flag outside -1..-4, -6",
+              found=f"{others} go on integrating")
+
+    def G_in(state, fin):
+        """G in the state `state` (function entry / level head); constants of the level that the start of the level defines
+        (`nsubsteps = 10 * level`) are taken from there"""
+        extra = {k: e for k, e in fin.s.items() if k not in state.s}
+        for k, e in extra.items():
+            if k in Gt and ("__head" in e or "__entry" in e):
+                return f"{k}{cstmt.OPAQUE}"
+        tmp = state.clone()
+        tmp.s = {**extra, **state.s}
+        return tmp.subst(Gt)
+
+    def verdict(key, pairs, okmsg, badmsg, expected):
+        vals = [cstmt.same_value(a, b) if kind == "scalar" else (None if cstmt.OPAQUE in a + b else a == b) for kind, a, b in pairs]
+        found = "; ".join(f"{a}  vs  {b}" for kind, a, b in pairs)[:300]
+        if any(x is False for x in vals):
+            ctx.bad("R3", key, where, badmsg, expected=expected, found=found)
+        elif any(x is None for x in vals):
+            ctx.unrec("R3", key, where, f"a value could not be followed: {found}")
+        else:
+            ctx.ok("R3", key, where, okmsg)
+    for v in REC:
+        if outcome[v][0] != "reach":
+            continue
+        pre, hs, fin = outcome[v][1]
+        verdict(f"{label}:recoverable branch",
+                [("scalar", fin.subst(Gt), f"({G_in(hs, fin)}) - ({hs.expr(T0)})"), ("array", fin.a.get(AB, AB), hs.a.get(AB, AB))],
+                f"keeps the reached state and the time still to integrate ({DT} <- {DT} - {T0})",
+                f"after a recoverable flag the level does not integrate (time left) - (time reached {T0}) from the state reached: the interval is over- or under-run while success is returned",
+                f"{AB} as reached; {DT} - {T0} still to integrate")
+        break
+    if outcome[-6][0] == "reach":
+        pre, hs, fin = outcome[-6][1]
+        verdict(f"{label}:reset branch",
+                [("scalar", fin.subst(Gt), G_in(pre, fin)), ("array", fin.a.get(AB, AB), "ab_init_")],
+                "restores the initial state and the full interval",
+                "after the reset flag the level does not integrate the full interval from ab_init_ (a shortened / stale interval is restored, or the state is not the initial one): "
+                "part of the interval is skipped while success is returned",
+                "ab_init_; the whole interval as given at entry")
+        verdict(f"{label}:last sub-step reaches dt", [("scalar", G_in(pre, fin), DT + "__entry")],
+                f"with the last step the target canonicalises to {DT} (the level integrates the whole remaining time)",
+                f"the last sub-step of a level does not end at the time still to integrate", DT)
+    for v in reach:
+        pre, hs, fin = outcome[v][1]
+        args = [cstmt.norm(a) for a in rcall[2]]
+        t_arg = fin.subst(cstmt.strip_casts(rcall[2][1])) if len(rcall[2]) == 3 else "?"
+        z = cstmt.same_value(t_arg, "0")
+        okr = len(args) == 3 and args[0] == "cv_mem_" and args[2] == "cv_y_" and z is True
+        if z is None and len(args) == 3:
+            ctx.unrec("R3", f"{label}:re-initialisation", where, f"cannot follow the restart time `{t_arg}`")
+        else:
+            ctx.check(okr, "R3", f"{label}:re-initialisation", where, f"the integrator restarts at time 0 from cv_y_ (= {AB}): CVodeReInit(cv_mem_, 0, cv_y_)", found=f"CVodeReInit({', '.join(args)}) with time = {t_arg}")
+        break
+
+
+def _r2_solve(ctx, label, mth):
+    fn = _func(ctx, CV, {"general.method": mth}, "Naunet::Solve")
+    if fn is None:
+        return
+    F = fn.fn
+    if not fn.params or len(fn.params) < 2:
+        ctx.unrec("R2", f"{label}:Solve:HandleError receives the flag", (CV, 0), f"parameters of Solve not understood: {fn.header}")
+        return
+    AB, DT = fn.params[0], fn.params[1]
+    cvs = [(F.pos[id(s)], _is_call(s, "CVode")) for s, c in F.seq if _is_call(s, "CVode")]
+    hes = [(F.pos[id(s)], _is_call(s, "HandleError")) for s, c in F.seq if _is_call(s, "HandleError")]
+    if len(cvs) != 1 or len(hes) != 1:
+        ctx.unrec("R2", f"{label}:Solve:HandleError receives the flag", (CV, 0), f"expected `x = CVode(..)` and `y = HandleError(..)`, found {len(cvs)} and {len(hes)}")
+        return
+    (cvi, cv), (hei, he) = cvs[0], hes[0]
+    ca, ha = [cstmt.norm(a) for a in cv[2]], [cstmt.norm(a) for a in he[2]]
+    T = ca[3][1:] if len(ca) == 5 and ca[3].startswith("&") else None
+    ok = cvi < hei and T is not None and ca == ["cv_mem_", DT, "cv_y_", "&" + T, "CV_NORMAL"] and ha == [cv[0], AB, DT, T] \
+        and not F.written_between({cv[0], T, DT}, cvi, hei)
+    ctx.check(ok, "R2", f"{label}:Solve:HandleError receives the flag", (CV, 0), f"flag = HandleError({cv[0]}, {AB}, {DT}, {T}) right after {cv[0]} = CVode(cv_mem_, {DT}, cv_y_, &{T}, ..)",
+              expected="the flag, the state, the interval and the time CVode reached", found=f"CVode({', '.join(ca)}) then HandleError({', '.join(ha)})")
+    FL = he[0]
+    rets = [s for s, c in F.seq if s[0] == "return"]
+    ident = bool(rets) and all(cstmt.value(rets[-1][1], {FL: x, **CONSTS}) == x for x in (0, 1)) and not F.written_between({FL}, hei, F.pos[id(rets[-1])])
+    rest = all(cstmt.value(r[1], {FL: 1, **CONSTS}) == 1 for r in rets)
+    ctx.check(ident and rest, "R2", f"{label}:Solve:returns HandleError's result", (CV, 0), f"Solve returns `{FL}`", found=str([cstmt.txt(r[1]) for r in rets]))
+    logs = [(x, c) for x, c in F.seq if x[0] == "expr" and "ab_init_" in x[1] and "fprintf" in x[1]]
+    ok = bool(logs)
+    for x, c in logs:
+        # tests made before the result existed (the early returns of the set-up calls) say nothing about it
+        g = [y for y in _guards(F, c, x, keep=(FL,)) if y[0] == "if" and F.pos.get(id(y[3]), 0) > hei]
+        ok = ok and cstmt.guards_truth(g, {FL: 1, **CONSTS}) is True and cstmt.guards_truth(g, {FL: 0, **CONSTS}) is False
+    ctx.check(ok, "R2", f"{label}:Solve:initial state logged on failure", (CV, 0), f"ab_init_ is written to the error file exactly under `{FL} == NAUNET_FAIL`")
+    saved = [F.pos[id(s)] for s, c in F.seq for d, src, n in (cstmt.copies(s) or []) if s[0] in ("for", "expr") and d == "ab_init_" and src == AB and n == "NEQUATIONS"]
+    ctx.check(bool(saved) and min(saved) < cvi and not F.written_between({AB}, min(saved), cvi), "R3", f"{label}:Solve:initial state saved", (CV, 0),
+              "ab_init_ (and ab_tmp_) are copies of the state taken before the first CVode call")
 
 
 def _r2_r3(ctx):
     for mth in ("dense", "sparse"):
         label = f"cvode/{mth}"
-        body, text = _body(ctx, CV, {"general.method": mth}, "Naunet::HandleError")
-        if body is None:
+        fn = _func(ctx, CV, {"general.method": mth}, "Naunet::HandleError")
+        if fn is None:
             ctx.missing("R2", f"{label}:HandleError", (CV, 0), "HandleError not found")
             continue
-        stmts = list(cstmt.walk(body))
-        # ---------------- R2: guarded success
-        rets = [(s, c) for s, c in stmts if s[0] == "return"]
-        vals = {cstmt.norm(s[1]) for s, c in rets}
-        ctx.check(vals <= {"NAUNET_SUCCESS", "NAUNET_FAIL"}, "R2", f"{label}:HandleError:return values", (CV, 0), "every exit returns NAUNET_SUCCESS or NAUNET_FAIL", found=str(sorted(vals)))
-        nsucc = 0
-        for s, c in rets:
-            if cstmt.norm(s[1]) != "NAUNET_SUCCESS":
-                continue
-            nsucc += 1
-            guards = [cstmt.norm(g[1]) for g in c if g[0] == "if" and g[2]]
-            ok = any(g in ("cvflag>=0", "0<=cvflag", "cvflag>-1") for g in guards)
-            ctx.check(ok, "R2", f"{label}:HandleError:success#{nsucc} guarded", (CV, 0),
-                      "success is returned only under `cvflag >= 0`" if ok else "a `return NAUNET_SUCCESS` is reachable without the test `cvflag >= 0` on the last integrator flag",
-                      expected="if (cvflag >= 0) { .. return NAUNET_SUCCESS; }", found=str(guards))
-        ctx.check(nsucc == 2, "R2", f"{label}:HandleError:success exits", (CV, 0), "success exits: at entry (nothing to repair) and after a completed level", found=str(nsucc))
-        # the last statement of the function is the failure return
-        last = body[1][-1]
-        ctx.check(last[0] == "return" and cstmt.norm(last[1]) == "NAUNET_FAIL", "R2", f"{label}:HandleError:falls through to failure", (CV, 0),
-                  "when all levels are exhausted the function returns NAUNET_FAIL", found=cstmt.txt(last[1]) if last[0] == "return" else last[0])
-        # no assignment to cvflag between the success test and the return, inside that if
-        for s, c in stmts:
-            if s[0] == "if" and cstmt.norm(s[1]) == "cvflag>=0":
-                inner = [x for x, _ in cstmt.walk(s[2]) if x[0] == "expr" and x[1][:2] == ["cvflag", "="]]
-                ctx.check(not inner, "R2", f"{label}:HandleError:flag unchanged before success", (CV, 0), "the tested flag is the one returned on")
-        # ---------------- R3 premises
-        level_loops = [(s, c) for s, c in stmts if s[0] == "for" and "level" in s[1]]
-        ctx.check(len(level_loops) == 1, "R3", f"{label}:level loop", (CV, 0), "one recovery ladder `for (int level = 1; level < 6; level++)`", found=str(len(level_loops)))
-        if len(level_loops) != 1:
+        if not fn.params or len(fn.params) != 4:
+            ctx.unrec("R2", f"{label}:HandleError", (CV, 0), f"expected HandleError(flag, state, interval, time reached), found {fn.header}")
             continue
-        loop, lconds = level_loops[0]
-        lcond = cstmt.norm(loop[2])
-        ctx.check(cstmt.norm(loop[1]) == "intlevel=1" and lcond == "level<6" and cstmt.norm(loop[3]) in ("level++", "++level", "level+=1"), "R3", f"{label}:five levels", (CV, 0),
-                  "levels 1..5", found=f"{cstmt.txt(loop[1])}; {cstmt.txt(loop[2])}; {cstmt.txt(loop[3])}")
-        # dt_init captured once, before the loop
-        decl = [(s, c) for s, c in stmts if s[0] == "expr" and "dt_init" in s[1] and "=" in s[1] and s[1][s[1].index("=") - 1] == "dt_init"]
-        in_loop = {id(x) for x, _ in cstmt.walk(loop[4])}
-        ok = len(decl) == 1 and id(decl[0][0]) not in in_loop and cstmt.norm(decl[0][0][1]).endswith("dt_init=dt") and not any(g[0] in ("for", "while") for g in decl[0][1])
-        ctx.check(ok, "R3", f"{label}:dt_init captured once before the ladder", (CV, 0),
-                  "dt_init = dt is taken once, before any level changes dt" if ok else
-                  "dt_init is (re)assigned inside the level loop: after a recoverable failure has shortened dt, a later reset (-6) restores the shortened value and part of the "
-                  "interval is skipped while success is returned",
-                  expected="realtype dt_init = dt;  before `for (int level ..`", found="; ".join(cstmt.txt(s[1]) + (" [inside the loop]" if id(s) in in_loop else "") for s, c in decl))
-        lb = loop[4]
-        # the if / else-if chain on cvflag
-        chain = [s for s in (lb[1] if lb[0] == "block" else [lb]) if s[0] == "if"]
-        branches = {}
-        if chain:
-            st = chain[0]
-            while st is not None and st[0] == "if":
-                branches[cstmt.norm(st[1])] = st[2]
-                st = st[3]
-        rec = next((b for c, b in branches.items() if c in ("cvflag<0&&cvflag>-5", "cvflag>-5&&cvflag<0", "cvflag>=-4&&cvflag<0", "cvflag<0&&cvflag>=-4")), None)
-        rst = next((b for c, b in branches.items() if c in ("cvflag==-6", "-6==cvflag")), None)
-        unr = next((b for c, b in branches.items() if c == "cvflag<0"), None)
-        ctx.check(rec is not None, "R3", f"{label}:recoverable flags", (CV, 0), "flags -1..-4 are the recoverable set", expected="cvflag < 0 && cvflag > -5", found=str(sorted(branches)))
-        ctx.check(rst is not None, "R3", f"{label}:reset flag", (CV, 0), "flag -6 is the reset flag", expected="cvflag == -6", found=str(sorted(branches)))
-        ctx.check(unr is not None and any(x[0] == "return" and cstmt.norm(x[1]) == "NAUNET_FAIL" for x, _ in cstmt.walk(unr)), "R3", f"{label}:other flags fail", (CV, 0),
-                  "any other negative flag leaves with NAUNET_FAIL")
-
-        def has(block, pats):
-            exprs = [cstmt.norm(x[1]) for x, _ in cstmt.walk(block) if x[0] == "expr"]
-            return all(any(re.fullmatch(p, e) for e in exprs) for p in pats), exprs
-        if rec is not None:
-            ok, ex = has(rec, [r"dt-=t0|dt=dt-t0", r"ab_tmp_\[i\]=ab\[i\]"])
-            ctx.check(ok, "R3", f"{label}:recoverable branch", (CV, 0), "keeps the reached state (ab_tmp_ <- ab) and the time still to integrate (dt <- dt - t0)",
-                      expected="ab_tmp_[i] = ab[i]; dt -= t0;", found="; ".join(ex))
-        if rst is not None:
-            ok, ex = has(rst, [r"dt=dt_init", r"ab_tmp_\[i\]=ab_init_\[i\]"])
-            ctx.check(ok, "R3", f"{label}:reset branch", (CV, 0), "restores the initial state and the full interval", expected="ab_tmp_[i] = ab_init_[i]; dt = dt_init;", found="; ".join(ex))
-        # order inside the level body: t0 = 0; ab = ab_tmp_; CVodeReInit(cv_mem_, t0, cv_y_)
-        flat = [(x, c) for x, c in cstmt.walk(lb)]
-        seq = [cstmt.norm(x[1]) for x, c in flat if x[0] == "expr"]
-
-        def pos(p):
-            return next((i for i, e in enumerate(seq) if re.fullmatch(p, e)), -1)
-        p_t0, p_ab, p_re = pos(r"t0=0(\.0*)?"), pos(r"ab\[i\]=ab_tmp_\[i\]"), pos(r"cvflag=CVodeReInit\(cv_mem_,t0,cv_y_\)")
-        ctx.check(0 <= p_t0 < p_re and 0 <= p_ab < p_re, "R3", f"{label}:re-initialisation", (CV, 0),
-                  "t0 = 0 and ab = ab_tmp_ are installed before CVodeReInit(cv_mem_, t0, cv_y_)", found=f"t0@{p_t0} ab@{p_ab} reinit@{p_re}")
-        # sub-step target
-        env = {}
-        tout = None
-        for e in seq:
-            e2 = _strip_casts(e)
-            m = re.fullmatch(r"(?:realtype|double)?(\w+)=(.+)", e2)
-            m2 = re.fullmatch(r"(\w+)\+=(.+)", e2)
-            if m2:
-                env[m2.group(1)] = f"({env.get(m2.group(1), m2.group(1))})+({m2.group(2)})"
-            elif m and m.group(1) in ("logdt", "expo", "tout"):
-                env[m.group(1)] = m.group(2)
-        ok = False
-        found = str(env)
-        try:
-            if "tout" in env:
-                expr = env["tout"]
-                for _ in range(4):
-                    for k, v in env.items():
-                        if k != "tout":
-                            expr = re.sub(r"\b" + k + r"\b", f"({v})", expr)
-                expr = re.sub(r"\bstep\b", "nsubsteps", _strip_casts(expr))
-                c = calg.canon_str(expr)
-                ok = c.equiv(calg.canon_str("dt"))
-                found = f"{expr} -> {c.show()}"
-        except calg.CParseError as ex:
-            found = f"{ex}"
-        ctx.check(ok, "R3", f"{label}:last sub-step reaches dt", (CV, 0), "with step = nsubsteps the target pow(10, expo) canonicalises to dt (the level integrates the whole remaining time)",
-                  expected="dt", found=found[:200])
-        calls = [cstmt.assigned_call(x[1]) for x, c in flat if x[0] == "expr" and cstmt.assigned_call(x[1])]
-        cv = [a for a in calls if a[1] == "CVode"]
-        ok = len(cv) == 1 and cv[0][0] == "cvflag" and [cstmt.norm(a) for a in cv[0][2]] == ["cv_mem_", "tout", "cv_y_", "&t0", "CV_NORMAL"]
-        ctx.check(ok, "R3", f"{label}:CVode call", (CV, 0), "cvflag = CVode(cv_mem_, tout, cv_y_, &t0, CV_NORMAL): progress is reported into t0", found=str([cstmt.norm(a) for a in cv[0][2]]) if cv else "")
-        # ---------------- Solve
-        sb, _ = _body(ctx, CV, {"general.method": mth}, "Naunet::Solve")
-        if sb is None:
-            continue
-        sst = list(cstmt.walk(sb))
-        exprs = [cstmt.norm(x[1]) for x, c in sst if x[0] == "expr"]
-        he = next((i for i, e in enumerate(exprs) if re.fullmatch(r"intflag=HandleError\(cvflag,ab,dt,t0\)", e)), -1)
-        cvi = next((i for i, e in enumerate(exprs) if re.fullmatch(r"cvflag=CVode\(cv_mem_,dt,cv_y_,&t0,CV_NORMAL\)", e)), -1)
-        ctx.check(0 <= cvi < he, "R2", f"{label}:Solve:HandleError receives the flag", (CV, 0), "flag = HandleError(cvflag, ab, dt, t0) right after cvflag = CVode(cv_mem_, dt, cv_y_, &t0, ..)",
-                  found=f"CVode@{cvi} HandleError@{he}")
-        rets = [cstmt.norm(x[1]) for x, c in sst if x[0] == "return"]
-        ctx.check(rets and rets[-1] == "flag" and set(rets) <= {"flag", "NAUNET_FAIL"}, "R2", f"{label}:Solve:returns HandleError's result", (CV, 0), "Solve returns `flag`", found=str(rets))
-        logs = [(x, c) for x, c in sst if x[0] == "expr" and "ab_init_" in x[1] and "fprintf" in x[1]]
-        ok = bool(logs) and all(any(g[0] == "if" and cstmt.norm(g[1]) == "flag==NAUNET_FAIL" and g[2] for g in c) for x, c in logs)
-        ctx.check(ok, "R2", f"{label}:Solve:initial state logged on failure", (CV, 0), "ab_init_ is written to the error file exactly under `flag == NAUNET_FAIL`")
-        init = next((i for i, e in enumerate(exprs) if e == "ab_init_[i]=ab[i]"), -1)
-        ctx.check(0 <= init < cvi, "R3", f"{label}:Solve:initial state saved", (CV, 0), "ab_init_ (and ab_tmp_) are copies of the state taken before the first CVode call")
+        FLAG, AB, DT, T0 = fn.params
+        _r2_handle_error(ctx, label, fn.fn, FLAG)
+        _r3_ladder(ctx, label, fn.fn, FLAG, AB, DT, T0)
+        _r2_solve(ctx, label, mth)
 
 
 def _r4(ctx):
-    ob, _ = _body(ctx, ODE, {}, "Observer::operator()")
+    ob = _func(ctx, ODE, {}, "Observer::operator()")
     if ob is None:
         ctx.missing("R4", "Observer::operator()", (ODE, 0), "observer not found")
         return
+    F = ob.fn
     thrown = None
-    for s, c in cstmt.walk(ob):
-        if s[0] == "throw":
-            guards = [cstmt.norm(g[1]) for g in c if g[0] == "if" and g[2]]
-            ok = guards in (["step_>mxsteps_"], ["mxsteps_<step_"])
-            ctx.check(ok, "R4", "Observer:budget test", (ODE, 0), "throws exactly when step_ > mxsteps_", expected="if (step_ > mxsteps_) throw ..", found=str(guards))
-            m = re.match(r"(std::\w+)", "".join(s[1]))
-            thrown = m.group(1) if m else "".join(s[1])[:40]
-    inc = any(s[0] == "expr" and cstmt.norm(s[1]) in ("step_+=1", "step_++", "++step_", "step_=step_+1") and not [g for g in c if g[0] == "if"] for s, c in cstmt.walk(ob))
-    ctx.check(inc, "R4", "Observer:counts every step", (ODE, 0), "step_ is incremented on every observer call, unconditionally")
+    # the counter is the variable the observer increments by one; the budget is what the throw compares it with
+    incs = [(i, nm) for nm, ds in F.defs.items() for i, op, rhs, decl in ds
+            if op in ("++", "++cond") or (op == "+=" and cstmt.norm(rhs) == "1") or (op == "=" and cstmt.norm(rhs) in (f"{nm}+1", f"1+{nm}"))]
+    incond = {i for nm, ds in F.defs.items() for i, op, rhs, decl in ds if op == "++cond"}
+    for s, c in F.seq:
+        if s[0] != "throw":
+            continue
+        m = re.match(r"(std::\w+)", "".join(s[1]))
+        thrown = m.group(1) if m else "".join(s[1])[:40]
+        ifs = [g for g in _guards(F, c, s) if g[0] == "if"]
+        shown = str([("" if g[2] else "!") + "(" + cstmt.norm(g[1]) + ")" for g in ifs])
+        names = sorted({t for g in ifs for t in g[1] if cstmt.IDENT.match(t)})
+        cnt = [nm for i, nm in incs if nm in names]
+        if not [g for g in c if g[0] == "if"]:
+            ctx.bad("R4", "Observer:budget test", (ODE, 0), "the observer throws unconditionally", expected="if (step_ > mxsteps_) throw ..", found=shown)
+            continue
+        if len(cnt) != 1 or len(names) != 2:
+            ctx.unrec("R4", "Observer:budget test", (ODE, 0), f"cannot tell the step counter and the budget apart in {shown}")
+            continue
+        C = cnt[0]
+        M = [x for x in names if x != C][0]
+        tt = [(cv, mv, cstmt.guards_truth(ifs, {C: cv, M: mv})) for cv in range(0, 8) for mv in range(-1, 7)]
+        if any(t is None for _, _, t in tt):
+            ctx.unrec("R4", "Observer:budget test", (ODE, 0), f"cannot evaluate {shown}")
+        else:
+            wrong = [(cv, mv) for cv, mv, t in tt if t != (cv > mv)]
+            ctx.check(not wrong, "R4", "Observer:budget test", (ODE, 0), f"throws exactly when {C} > {M}", expected=f"if ({C} > {M}) throw ..",
+                      found=shown + (f" differs for ({C}, {M}) = {wrong[0]}" if wrong else ""))
+        first_test = min([F.pos.get(id(g[3]), 0) for g in ifs] or [0])
+        cpos = [i for i, nm in incs if nm == C]
+        uncond = [i for i in cpos if not [g for g in F.seq[i][1] if g[0] in ("if", "for", "while", "try", "catch")]]
+        ctx.check(bool(uncond) and len(cpos) == 1, "R4", "Observer:counts every step", (ODE, 0), f"{C} is incremented on every observer call, unconditionally")
+        ctx.check(bool(cpos) and (max(cpos) < first_test or (max(cpos) == first_test and max(cpos) in incond)), "R4", "Observer:counts before testing", (ODE, 0), "the call being observed is counted before the budget is tested",
+                  found="the budget is compared with the count of the previous call: one step more than the budget is taken")
+    if thrown is None:
+        inc = any(not [g for g in F.seq[i][1] if g[0] == "if"] for i, nm in incs)
+        ctx.check(inc, "R4", "Observer:counts every step", (ODE, 0), "step_ is incremented on every observer call, unconditionally")
     ctx.check(thrown is not None, "R4", "Observer:throws", (ODE, 0), "exceeding the budget raises an exception")
-    sb, _ = _body(ctx, OD, {}, "Naunet::Solve")
-    if sb is None:
+    sv = _func(ctx, OD, {}, "Naunet::Solve")
+    if sv is None:
         ctx.missing("R4", "odeint Solve", (OD, 0), "Solve not found")
         return
-    tries = [s for s, c in cstmt.walk(sb) if s[0] == "try"]
-    ok = False
-    found = ""
-    if len(tries) == 1:
+    SF = sv.fn
+    sb = sv.body
+    DT = sv.params[1] if sv.params and len(sv.params) >= 2 else "dt"
+    STATE = sv.params[0] if sv.params else "abund"
+    tries = [s for s, c in SF.seq if s[0] == "try"]
+    if len(tries) != 1:
+        ctx.bad("R4", "Solve:try", (OD, 0), f"expected one try block around the integration, found {len(tries)}")
+    else:
         t = tries[0]
-        inside = ["".join(x[1]) for x, _ in cstmt.walk(t[1]) if x[0] == "expr"]
-        integ = [e for e in inside if "integrate_adaptive(" in e]
+        integ = [x[1] for x, _ in cstmt.walk(t[1]) if x[0] == "expr" and "integrate_adaptive" in x[1]]
         caught = ["".join(d) for d, b in t[2]]
-        found = f"catch {caught}; thrown {thrown}"
-        types = [re.sub(r"^const|&\w*$|\w+$", "", c).strip("& ") for c in caught]
-        handler_sets = any(any(x[0] == "expr" and cstmt.norm(x[1]) == "flag=NAUNET_FAIL" for x, _ in cstmt.walk(b)) for d, b in t[2])
         type_ok = thrown is not None and any(thrown in c or "std::exception" in c or c == "..." for c in caught)
-        ok = bool(integ) and type_ok and handler_sets
         ctx.check(type_ok, "R4", "Solve catches what the observer throws", (OD, 0),
                   f"the observer throws {thrown}, which the handler catches" if type_ok else
                   f"the observer throws `{thrown}` but Solve only catches {caught}: exceeding the step budget escapes Solve instead of returning NAUNET_FAIL",
                   expected=f"catch (const {thrown} &e)", found=str(caught))
-        ctx.check(handler_sets, "R4", "handler sets failure", (OD, 0), "the handler sets flag = NAUNET_FAIL")
+        OBS = None
         if integ:
             e = integ[0]
-            args_ok = re.search(r",y,0(\.0*)?,dt,dt,observer\)$", e) is not None and "step_=integrate_adaptive(" in e
-            ctx.check(args_ok, "R4", "integrate over [0, dt] with the observer", (OD, 0), "integrate_adaptive(.., y, 0.0, dt, dt, observer)", found=e[-60:])
-    else:
-        ctx.bad("R4", "Solve:try", (OD, 0), f"expected one try block around the integration, found {len(tries)}")
-    rets = [cstmt.norm(x[1]) for x, c in cstmt.walk(sb) if x[0] == "return"]
-    ctx.check(rets == ["flag"], "R4", "odeint Solve returns flag", (OD, 0), "Solve returns the flag the handler may have set", found=str(rets))
-    init = [cstmt.norm(x[1]) for x, c in cstmt.walk(sb) if x[0] == "expr" and x[1][:3] == ["int", "flag", "="]]
-    ctx.check(init == ["intflag=NAUNET_SUCCESS"], "R4", "odeint Solve: flag starts as success", (OD, 0), "flag is NAUNET_SUCCESS unless the handler ran", found=str(init))
-    obs = any("".join(x[1]) == "Observerobserver(mxsteps_)" for x, c in cstmt.walk(sb) if x[0] == "expr")
-    ctx.check(obs, "R4", "observer gets the step budget", (OD, 0), "Observer observer(mxsteps_)")
+            k = e.index("integrate_adaptive")
+            args = cstmt._top_split(e[k + 2:-1], (",",)) if e[k + 1:k + 2] == ["("] and e[-1] == ")" else []
+            a = [cstmt.norm(x) for x in args]
+            back = [src for s, c in SF.seq if SF.pos[id(s)] > SF.pos[id(t)] and s[0] in ("for", "expr") for d, src, n in (cstmt.copies(s) or []) if d == STATE]
+            args_ok = len(a) == 7 and cstmt.IDENT.match(a[2]) and cstmt.value(args[3], {}) == 0 and a[4] == DT and a[5] == DT and cstmt.IDENT.match(a[6]) \
+                and (not back or a[2] in back)
+            ctx.check(bool(args_ok), "R4", "integrate over [0, dt] with the observer", (OD, 0), f"integrate_adaptive(.., y, 0.0, {DT}, {DT}, observer)", found=cstmt.txt(e)[-90:])
+            OBS = a[6] if len(a) == 7 else None
+        else:
+            ctx.unrec("R4", "integrate over [0, dt] with the observer", (OD, 0), "no integrate_adaptive call inside the try block")
+        # ---- what Solve returns without / with a caught exception
+        top = sb[1] if sb[0] == "block" else []
+        ti = [i for i, x in enumerate(top) if x is t]
+        if not ti:
+            ctx.unrec("R4", "odeint Solve returns flag", (OD, 0), "the try block is nested in another statement: the two ways through Solve are not enumerated")
+        else:
+            before, after = ("block", top[:ti[0]]), ("block", top[ti[0] + 1:])
+
+            def final(sym, parts):
+                for pt in parts:
+                    r = sym.run(pt)
+                    if r is not None:
+                        return cstmt.value(r[1], sym._env()) if r[0] == "return" else r[0]
+                return "falls off the end"
+            try:
+                calm = final(cstmt.Sym(concrete=CONSTS), [before, t[1], after])
+                rough = []
+                for d, b in t[2]:
+                    sy = cstmt.Sym(concrete=CONSTS)
+                    r = sy.run(before)
+                    for nm in cstmt.written(t[1]):
+                        sy.s[nm] = sy.opaque(nm)
+                        sy.c.pop(nm, None)
+                    rough.append(final(sy, [b, after]) if r is None else r[0])
+            except cstmt.Unknown as ex:
+                ctx.unrec("R4", "odeint Solve returns flag", (OD, 0), f"Solve is not straight-line around the try block: {ex}")
+            else:
+                ctx.check(calm == 0, "R4", "odeint Solve: flag starts as success", (OD, 0), "Solve returns NAUNET_SUCCESS when the integration completes" if calm == 0 else
+                          "Solve does not return NAUNET_SUCCESS after a completed integration", found=str(calm)) if calm is not None else \
+                    ctx.unrec("R4", "odeint Solve: flag starts as success", (OD, 0), "cannot follow the value returned after a completed integration")
+                if any(x is None for x in rough):
+                    ctx.unrec("R4", "handler sets failure", (OD, 0), "cannot follow the value returned after a caught exception")
+                else:
+                    ok = bool(rough) and all(x == 1 for x in rough)
+                    ctx.check(ok, "R4", "handler sets failure", (OD, 0), "Solve returns NAUNET_FAIL when the handler ran" if ok else
+                              "after a caught exception (step budget exceeded) Solve does not return NAUNET_FAIL: the unfinished state is reported as a success", expected="NAUNET_FAIL (1)", found=str(rough))
+                ctx.check(calm is not None and all(x is not None for x in rough), "R4", "odeint Solve returns flag", (OD, 0), "what Solve returns is decided by whether the handler ran")
+        decl = [x[1] for x, c in SF.seq if x[0] == "expr" and OBS and OBS in x[1] and "Observer" in x[1]]
+        obs = any(cstmt.norm(d) in (f"Observer{OBS}(mxsteps_)", f"Observer{OBS}{{mxsteps_}}", f"Observer{OBS}=Observer(mxsteps_)", f"auto{OBS}=Observer(mxsteps_)") for d in decl)
+        ctx.check(obs, "R4", "observer gets the step budget", (OD, 0), "Observer observer(mxsteps_): a fresh observer per call, built from the configured budget", found=str([cstmt.txt(d) for d in decl]))
 
 
 def _r5(ctx):
     for label, rel, cfg in (("cvode", CV, {"general.method": "dense"}), ("odeint", OD, {})):
-        wb, _ = _body(ctx, rel, cfg, "Naunet::PyWrapSolve")
-        if wb is None:
+        fn = _func(ctx, rel, cfg, "Naunet::PyWrapSolve")
+        if fn is None:
             ctx.missing("R5", f"{label}:PyWrapSolve", (rel, 0), "wrapper not found")
             continue
-        stmts = list(cstmt.walk(wb))
-        call = [x for x, c in stmts if x[0] == "expr" and "Solve" in x[1]]
+        F = fn.fn
+
+        def solve_call(toks):
+            """tokens with the call `Solve(..)` replaced by the pseudo-variable __solve"""
+            for i, t in enumerate(toks):
+                if t == "Solve" and i + 1 < len(toks) and toks[i + 1] == "(" and not (i and toks[i - 1] in (".", "->")):
+                    d = 0
+                    for j in range(i + 1, len(toks)):
+                        d += toks[j] == "("
+                        d -= toks[j] == ")"
+                        if d == 0:
+                            return list(toks[:i]) + ["__solve"] + list(toks[j + 1:])
+            return None
+        call = [x for x, c in F.seq if x[0] == "expr" and solve_call(x[1])]
         stored = [cstmt.assigned_call(x[1]) for x in call]
-        var = stored[0][0] if stored and stored[0] else None
-        tested = var is not None and any(x[0] == "if" and var in x[1] and "NAUNET_FAIL" in x[1] and any(y[0] == "throw" for y, _ in cstmt.walk(x[2])) for x, c in stmts)
+        var = stored[0][0] if stored and stored[0] and stored[0][1] == "Solve" else None
+        tested = False
+        for x, c in F.seq:
+            if x[0] != "throw":
+                continue
+            ifs = []
+            for g in _guards(F, c, x, keep=(var,) if var else ()):
+                if g[0] == "if":
+                    ifs.append((g[0], tuple(solve_call(g[1]) or g[1]), g[2], g[3]))
+            envs = [{**CONSTS, "__solve": r, **({var: r} if var else {})} for r in (0, 1)]
+            if cstmt.guards_truth(ifs, envs[1]) is True and cstmt.guards_truth(ifs, envs[0]) is False:
+                tested = True
         ctx.check(bool(tested), "R5", f"{label}:PyWrapSolve tests Solve", (rel, 0),
                   "the Python wrapper raises when Solve returns NAUNET_FAIL" if tested else
                   "the Python wrapper drops the result of Solve: a failed integration returns the unfinished state as if it had succeeded",
@@ -328,8 +701,59 @@ MUTANTS = [
     {"name": "tret-not-t0", "file": CV, "old": "            cvflag        = CVode(cv_mem_, tout, cv_y_, &t0, CV_NORMAL);", "new": "            realtype tret;\n            cvflag        = CVode(cv_mem_, tout, cv_y_, &tret, CV_NORMAL);", "rules": ["R3"]},
     {"name": "substep-target-short", "file": CV, "old": "expo += (realtype)level * (realtype)step / (realtype)nsubsteps;", "new": "expo += (realtype)level * (realtype)(step - 1) / (realtype)nsubsteps;", "rules": ["R3"]},
     {"name": "reinit-flag-dropped", "file": CV, "old": "        cvflag = CVodeReInit(cv_mem_, t0, cv_y_);\n        if (CheckFlag(&cvflag, \"CVodeReInit\", 1, errfp_) == NAUNET_FAIL) {\n            return NAUNET_FAIL;\n        }\n", "new": "        cvflag = CVodeReInit(cv_mem_, t0, cv_y_);\n", "rules": ["R1"]},
+    {"name": "observer-tests-before-counting", "edits": [
+        {"file": ODE, "old": "    step_ += 1;\n    time_ = t;\n", "new": "    time_ = t;\n"},
+        {"file": ODE, "old": "        throw std::runtime_error(err);\n    }\n", "new": "        throw std::runtime_error(err);\n    }\n    step_ += 1;\n"}], "rules": ["R4"]},
+    {"name": "reset-copies-reached-state", "file": CV, "old": "                ab_tmp_[i] = ab_init_[i];\n", "new": "                ab_tmp_[i] = ab[i];\n", "rules": ["R3"]},
+    {"name": "reinit-at-reached-time", "file": CV, "old": "        t0 = 0.0;\n        for (int i = 0; i < NEQUATIONS; i++) {\n            ab[i] = ab_tmp_[i];", "new": "        for (int i = 0; i < NEQUATIONS; i++) {\n            ab[i] = ab_tmp_[i];", "rules": ["R3"]},
+    {"name": "fatal-flag-retried", "file": CV, "old": "        } else if (cvflag < 0) {\n            fprintf(\n                errfp_,\n                \"The error cannot be recovered by Naunet! Exit from Naunet!\\n\");", "new": "        } else if (cvflag < -7) {\n            fprintf(\n                errfp_,\n                \"The error cannot be recovered by Naunet! Exit from Naunet!\\n\");", "rules": ["R3"]},
+    {"name": "substeps-stop-one-short", "file": CV, "old": "for (int step = 1; step < nsubsteps + 1; step++) {", "new": "for (int step = 1; step < nsubsteps; step++) {", "rules": ["R3"]},
+    {"name": "success-guard-weakened", "file": CV, "old": "        // if CVode succeeded, leave the loop\n        if (cvflag >= 0) {", "new": "        // if CVode succeeded, leave the loop\n        if (cvflag >= -1) {", "rules": ["R2"]},
     {"name": "odeint-wrapper-drops-flag", "file": OD, "old": "    int flag             = Solve(abund, dt, data);\n    if (flag == NAUNET_FAIL) {\n        throw std::runtime_error(\"Something unrecoverable occurred\");\n    }\n\n    return py::array_t<double>(info.shape, abund);", "new": "    Solve(abund, dt, data);\n\n    return py::array_t<double>(info.shape, abund);", "rules": ["R5"]},
 ]
 BENIGN = [
     {"name": "dt-assign-form", "file": CV, "old": "            dt -= t0;\n", "new": "            dt = dt - t0;\n"},
+    {"name": "state-copies-in-a-helper", "edits": [
+        {"file": CV, "old": "int Naunet::HandleError(int cvflag,", "new": "static void CopyAll(realtype *to, const realtype *from) {\n    for (int k = 0; k < NEQUATIONS; k++) {\n        to[k] = from[k];\n    }\n}\n\nint Naunet::HandleError(int cvflag,"},
+        {"file": CV, "old": "            for (int i = 0; i < NEQUATIONS; i++) {\n                ab_tmp_[i] = ab[i];\n            }\n            dt -= t0;", "new": "            CopyAll(ab_tmp_, ab);\n            dt -= t0;"},
+        {"file": CV, "old": "        t0 = 0.0;\n        for (int i = 0; i < NEQUATIONS; i++) {\n            ab[i] = ab_tmp_[i];\n        }\n", "new": "        t0 = 0.0;\n        CopyAll(ab, ab_tmp_);\n"}]},
+    {"name": "state-copies-by-memcpy", "file": CV, "old": "            for (int i = 0; i < NEQUATIONS; i++) {\n                ab_tmp_[i] = ab_init_[i];\n            }\n", "new": "            memcpy(ab_tmp_, ab_init_, NEQUATIONS * sizeof(realtype));\n"},
+    {"name": "flag-classified-into-named-tests", "edits": [
+        {"file": CV, "old": "        if (cvflag < 0 && cvflag > -5) {\n", "new": "        const bool keep_going = -5 < cvflag && cvflag <= -1;\n        const bool start_over = -6 == cvflag;\n        if (keep_going) {\n"},
+        {"file": CV, "old": "        } else if (cvflag == -6) {\n", "new": "        } else if (start_over) {\n"}]},
+    {"name": "success-by-guard-clause", "file": CV, "old": "        if (cvflag >= 0) {\n            if (level > 0) {", "new": "        if (!(cvflag >= 0)) continue;\n        {\n            if (level > 0) {"},
+    {"name": "substeps-as-while", "edits": [
+        {"file": CV, "old": "        for (int step = 1; step < nsubsteps + 1; step++) {\n", "new": "        int step = 1;\n        while (step <= nsubsteps) {\n"},
+        {"file": CV, "old": "                break;\n            }\n        }\n", "new": "                break;\n            }\n            ++step;\n        }\n"}]},
+    {"name": "parameters-renamed", "edits": [
+        {"file": CV, "old": "int Naunet::HandleError(int cvflag, realtype *ab, realtype dt, realtype t0) {\n    if (cvflag >= 0) {", "new": "int Naunet::HandleError(int cvflag, realtype *ab, realtype span, realtype t0) {\n    realtype dt = span;\n    if (cvflag >= 0) {"}]},
+    {"name": "check-and-return-macro", "edits": [
+        {"file": CV, "old": "int Naunet::HandleError(int cvflag,", "new": "#define RETURN_IF_FAILED(flagvar, what)                              \\\n    if (CheckFlag(&flagvar, what, 1, errfp_) == NAUNET_FAIL) { \\\n        return NAUNET_FAIL;                                           \\\n    }\n\nint Naunet::HandleError(int cvflag,"},
+        {"file": CV, "old": "        if (CheckFlag(&cvflag, \"CVodeReInit\", 1, errfp_) == NAUNET_FAIL) {\n            return NAUNET_FAIL;\n        }\n", "new": "        RETURN_IF_FAILED(cvflag, \"CVodeReInit\")\n"},
+        {"file": CV, "old": "    if (CheckFlag(&cvflag, \"CVodeSetMaxNumSteps\", 1, errfp_) == NAUNET_FAIL) {\n        return NAUNET_FAIL;\n    }\n", "new": "    RETURN_IF_FAILED(cvflag, \"CVodeSetMaxNumSteps\");\n"}]},
+    {"name": "flag-classified-by-switch", "file": CV, "old": "        if (cvflag < 0 && cvflag > -5) {\n            for (int i = 0; i < NEQUATIONS; i++) {\n                ab_tmp_[i] = ab[i];\n            }\n            dt -= t0;\n        } else if (cvflag == -6) {\n            // The state may have something wrong\n            // Reset to the initial state and try finer steps\n            for (int i = 0; i < NEQUATIONS; i++) {\n                ab_tmp_[i] = ab_init_[i];\n            }\n            dt = dt_init;\n        } else if (cvflag < 0) {\n",
+     "new": "        switch (cvflag) {\n            case -1:\n            case -2:\n            case -3:\n            case -4:\n                for (int i = 0; i < NEQUATIONS; i++) {\n                    ab_tmp_[i] = ab[i];\n                }\n                dt -= t0;\n                break;\n            case -6:\n                for (int i = 0; i < NEQUATIONS; i++) {\n                    ab_tmp_[i] = ab_init_[i];\n                }\n                dt = dt_init;\n                break;\n            default:\n                break;\n        }\n        if (cvflag < 0 && cvflag != -6 && !(cvflag > -5)) {\n"},
+    {"name": "interval-by-ternary", "edits": [
+        {"file": CV, "old": "            dt -= t0;\n", "new": ""},
+        {"file": CV, "old": "            dt = dt_init;\n", "new": ""},
+        {"file": CV, "old": "        // Reset initial conditions\n        t0 = 0.0;", "new": "        dt = (cvflag == -6) ? dt_init : dt - t0;\n        // Reset initial conditions\n        t0 = 0.0;"}]},
+    {"name": "substep-bound-spelt-out", "file": CV, "old": "step < nsubsteps + 1; step++", "new": "step <= 10 * level; step++"},
+    {"name": "state-source-by-pointer", "file": CV,
+     "old": "        if (cvflag < 0 && cvflag > -5) {\n            for (int i = 0; i < NEQUATIONS; i++) {\n                ab_tmp_[i] = ab[i];\n            }\n            dt -= t0;\n        } else if (cvflag == -6) {\n            // The state may have something wrong\n            // Reset to the initial state and try finer steps\n            for (int i = 0; i < NEQUATIONS; i++) {\n                ab_tmp_[i] = ab_init_[i];\n            }\n            dt = dt_init;\n        } else if (cvflag < 0) {",
+     "new": "        const realtype *from = (cvflag == -6) ? ab_init_ : ab;\n        if (cvflag == -6 || (cvflag < 0 && cvflag > -5)) {\n            for (int i = 0; i < NEQUATIONS; i++) {\n                ab_tmp_[i] = from[i];\n            }\n            dt = (cvflag == -6) ? dt_init : dt - t0;\n        } else if (cvflag < 0) {"},
+    {"name": "check-macro-do-while", "edits": [
+        {"file": CV, "old": "int Naunet::HandleError(int cvflag,", "new": "#define CHECKED(what)                                                   \\\n    do {                                                                \\\n        if (CheckFlag(&cvflag, what, 1, errfp_) == NAUNET_FAIL) return NAUNET_FAIL; \\\n    } while (0)\n\nint Naunet::HandleError(int cvflag,"},
+        {"file": CV, "old": "        if (CheckFlag(&cvflag, \"CVodeReInit\", 1, errfp_) == NAUNET_FAIL) {\n            return NAUNET_FAIL;\n        }\n", "new": "        CHECKED(\"CVodeReInit\");\n"}]},
+    {"name": "reinit-literal-zero", "file": CV, "old": "        cvflag = CVodeReInit(cv_mem_, t0, cv_y_);", "new": "        cvflag = CVodeReInit(cv_mem_, 0.0, cv_y_);"},
+    {"name": "observer-counts-in-the-test", "file": ODE, "old": "    step_ += 1;\n    time_ = t;\n    if (step_ > mxsteps_) {", "new": "    time_ = t;\n    if (++step_ > mxsteps_) {"},
+    {"name": "observer-early-return", "file": ODE, "old": "    if (step_ > mxsteps_) {\n        char err[70];", "new": "    if (mxsteps_ >= step_) return;\n    {\n        char err[70];"},
+    {"name": "odeint-status-as-bool", "edits": [
+        {"file": OD, "old": "    int flag = NAUNET_SUCCESS;\n\n    vector_type y", "new": "    bool failed = false;\n\n    vector_type y"},
+        {"file": OD, "old": "        flag = NAUNET_FAIL;\n", "new": "        failed = true;\n"},
+        {"file": OD, "old": "        abund[i] = y[i];\n    }\n\n    return flag;", "new": "        abund[i] = y[i];\n    }\n\n    return failed ? NAUNET_FAIL : NAUNET_SUCCESS;"}]},
+    {"name": "odeint-names", "edits": [
+        {"file": OD, "old": "    vector_type y(NEQUATIONS);\n    for (int i = 0; i < NEQUATIONS; i++) {\n        y[i] = abund[i];\n    }\n\n    Observer observer(mxsteps_);", "new": "    vector_type state(NEQUATIONS);\n    for (int i = 0; i < NEQUATIONS; i++) {\n        state[i] = abund[i];\n    }\n\n    Observer budget(mxsteps_);"},
+        {"file": OD, "old": "y, 0.0, dt, dt, observer);", "new": "state, 0.0, dt, dt, budget);"},
+        {"file": OD, "old": "        abund[i] = y[i];\n    }\n\n    return flag;", "new": "        abund[i] = state[i];\n    }\n\n    return flag;"}]},
+    {"name": "wrapper-tests-inline", "file": OD, "old": "    int flag             = Solve(abund, dt, data);\n    if (flag == NAUNET_FAIL) {", "new": "    if (Solve(abund, dt, data) != NAUNET_SUCCESS) {"},
 ]
